@@ -33,6 +33,9 @@ pub struct LinSpec {
     /// copy row i to row j (ties between output neurons)
     pub dup: Option<(u8, u8)>,
     pub acts: Vec<Act>,
+    /// weights and bias of the layer are multiplied by 2^scale (exact)
+    #[serde(default)]
+    pub scale: i8,
 }
 
 #[derive(Clone, Debug, Serialize, Deserialize)]
@@ -110,6 +113,18 @@ pub fn run_case(c: &Case, ctx: &mut Ctx) -> CaseResult {
     for ls in &c.layers {
         let width = 1 + (ls.width as usize % W);
         let mut a = project_aff(&ls.a, width, dim);
+        if ls.scale != 0 && exact {
+            let k = 2f64.powi(ls.scale as i32);
+            for r in a.mat.rows.iter_mut() {
+                for v in r.iter_mut() {
+                    *v *= k;
+                }
+            }
+            for v in a.bias.iter_mut() {
+                *v *= k;
+            }
+            ctx.class("scaled_layer");
+        }
         if let Some((i, j)) = ls.dup {
             let (i, j) = (i as usize % width, j as usize % width);
             a.mat.rows[j] = a.mat.rows[i].clone();
@@ -243,8 +258,9 @@ fn lin_spec(float: bool) -> impl Strategy<Value = LinSpec> {
         proptest::collection::vec(prop::option::weighted(0.5, (any::<u16>(), prop_oneof![4 => Just(0i8), 1 => Just(1), 1 => Just(-1), 1 => Just(3), 1 => Just(-3)])), W),
         prop::option::weighted(0.2, (any::<u8>(), any::<u8>())),
         proptest::collection::vec(act(), W),
+        prop_oneof![9 => Just(0i8), 2 => -16i8..=16],
     )
-        .prop_map(|(a, width, plant, dup, acts)| LinSpec { a, width, plant, dup, acts })
+        .prop_map(|(a, width, plant, dup, acts, scale)| LinSpec { a, width, plant, dup, acts, scale })
 }
 
 pub struct C01;
@@ -265,7 +281,7 @@ impl Property for C01 {
         ]
     }
     fn cases(&self, tier: Tier) -> usize {
-        tier.pick(600, 20_000)
+        tier.pick(1500, 20_000)
     }
     fn strategy(&self, tier: Tier) -> BoxedStrategy<Case> {
         let max_layers = tier.pick(2usize, 3usize);
@@ -283,6 +299,21 @@ impl Property for C01 {
                 )
             })
             .prop_map(|(float_regime, in_dim, layers, head, post, pre, anchors, points)| Case { in_dim, layers, head, post, pre, anchors, points, float_regime })
+            .prop_flat_map(|c| (Just(c), 0u8..24))
+            .prop_map(|(mut c, regime)| {
+                // ~4 % of the exact-regime networks have uniformly tiny (2^-20 per layer) or large (2^10)
+                // weights and biases, without planted breakpoints (a planted bias of order 1 next to
+                // weights of order 1e-6 would create badly conditioned rows rather than test the builder)
+                if !c.float_regime && regime < 2 {
+                    for l in c.layers.iter_mut() {
+                        l.scale = if regime == 0 { -20 } else { 10 };
+                        for p in l.plant.iter_mut() {
+                            *p = None;
+                        }
+                    }
+                }
+                c
+            })
             .boxed()
     }
     fn run(&self, case: &Case, ctx: &mut Ctx) -> CaseResult {
